@@ -140,7 +140,7 @@ Prune(t, D) ==
 (* Bookkeeping of calls *)
 
 NoArgs == [p |-> 0, slot |-> "", n |-> "", t |-> 0, by |-> "", v |-> 0]
-Call(a, args, res, new) == [a |-> a, args |-> args, res |-> res, new |-> new]
+Call(a, args, res, new) == [a |-> a, args |-> args, res |-> res, new |-> new, out |-> <<>>]
 Record(c) == last' = c /\ hist' = Append(hist, c)
 
 Writable == open /\ mode = "rw"
@@ -358,6 +358,113 @@ Open(m) == /\ ~open /\ diskOk /\ m \in {"rw", "ro", "ow"} /\ LifeStep("Open", m)
            /\ UNCHANGED <<diskOk, nextEid, ended, gen>>
 
 ---------------------------------------------------------------------------
+(* Queries (C20): tree searches with filter and depth limit, inherited properties, back references.  *)
+(* They are defined here as plain recursive traversals of the tree; the implementation computes them *)
+(* with work lists, filters over enumerations and link look-ups.                                     *)
+
+RECURSIVE ConcatKids(_, _, _, _)
+ConcatKids(t, q, s, i) == IF i > Len(q) THEN <<>> ELSE Kids(t, q[i], s) \o ConcatKids(t, q, s, i + 1)
+\* breadth-first listing: the frontier q itself, then level by level; d = remaining depth (-1 = unlimited)
+RECURSIVE BFSFrom(_, _, _, _)
+BFSFrom(t, q, s, d) == IF q = <<>> THEN <<>>
+                       ELSE q \o (IF d = 0 THEN <<>> ELSE BFSFrom(t, ConcatKids(t, q, s, 1), s, IF d = -1 THEN -1 ELSE d - 1))
+RECURSIVE FlatMapSeq(_, _, _)
+FlatMapSeq(F(_), q, i) == IF i > Len(q) THEN <<>> ELSE F(q[i]) \o FlatMapSeq(F, q, i + 1)
+
+\* depth conventions of the four entry points
+SectionSearch(t, e, d) == IF d = 0 THEN <<>> ELSE BFSFrom(t, Kids(t, e, "sections"), "sections", IF d = -1 THEN -1 ELSE d - 1)
+SourceSearch(t, e, d) == BFSFrom(t, <<e>>, "sources", d)
+FileSectionSearch(t, d) == IF d = 0 THEN <<>>
+                           ELSE LET F(r) == <<r>> \o SectionSearch(t, r, IF d = -1 THEN -1 ELSE d - 1) IN FlatMapSeq(F, Kids(t, ROOT, "sections"), 1)
+BlockSourceSearch(t, b, d) == LET F(r) == SourceSearch(t, r, d) IN FlatMapSeq(F, Kids(t, b, "sources"), 1)
+
+Pass(t, flt, e) == CASE flt.f = "all" -> TRUE [] flt.f = "id" -> e = flt.x [] flt.f = "name" -> t[e].name = flt.n
+                     [] flt.f = "type" -> t[e].type = flt.n [] flt.f = "ids" -> e \in {flt.x, flt.y}
+Filtered(t, flt, q) == SelectSeq(q, LAMBDA e : Pass(t, flt, e))
+
+\* the brute-force definition the searches must agree with: all proper descendants within depth d
+RECURSIVE Desc(_, _, _, _)
+Desc(t, e, s, d) == IF d = 0 THEN {} ELSE UNION {{c} \cup Desc(t, c, s, IF d = -1 THEN -1 ELSE d - 1) : c \in Range(Kids(t, e, s))}
+
+\* inherited properties: own ones, then those of the linked section that are not shadowed by name
+InheritedProps(t, e) ==
+  LET own == Kids(t, e, "props")
+      l == One(t, e, "link")
+  IN IF l = NONE THEN own
+     ELSE own \o SelectSeq(Kids(t, l, "props"), LAMBDA p : \A i \in 1..Len(own) : t[own[i]].name # t[p].name)
+
+\* back references, in the order the implementation enumerates them (blocks in file order, containers in order)
+KindIn(t, b, slot) == Kids(t, b, slot)
+ReferringIn(t, sec, q) == SelectSeq(q, LAMBDA e : One(t, e, "metadata") = sec)
+AllBlocks(t) == Kids(t, ROOT, "blocks")
+ReferringBlocks(t, sec) == ReferringIn(t, sec, AllBlocks(t))
+ReferringOfKind(t, sec, slot) == LET F(b) == ReferringIn(t, sec, Kids(t, b, slot)) IN FlatMapSeq(F, AllBlocks(t), 1)
+ReferringSources(t, sec) == LET F(b) == ReferringIn(t, sec, BlockSourceSearch(t, b, -1)) IN FlatMapSeq(F, AllBlocks(t), 1)
+AttachedTo(t, src, slot) == SelectSeq(Kids(t, BlockOf(t, src), slot), LAMBDA e : Contains(Kids(t, e, "esources"), src))
+ParentSource(t, src) == IF t[t[src].par].kind = "source" THEN t[src].par ELSE NONE
+
+QDepths == <<0, 1, 2, 3, -1>>
+NoFlt == [f |-> "all", x |-> 0, y |-> 0, n |-> ""]
+FiltersOf(t, k) ==
+  LET es == SortedSeq({e \in Live(t) : t[e].kind = k}) IN
+  <<NoFlt, [NoFlt EXCEPT !.f = "name", !.n = "n1"], [NoFlt EXCEPT !.f = "name", !.n = "n2"], [NoFlt EXCEPT !.f = "type", !.n = "t1"], [NoFlt EXCEPT !.f = "type", !.n = "t2"]>>
+  \o [i \in 1..Len(es) |-> [NoFlt EXCEPT !.f = "id", !.x = es[i]]]
+  \o (IF Len(es) >= 2 THEN <<[NoFlt EXCEPT !.f = "ids", !.x = es[1], !.y = es[Len(es)]]>> ELSE <<>>)
+QRec(k, e, flt, d, out) == [k |-> k, e |-> e, flt |-> flt, d |-> d, out |-> out]
+
+\* one query per (filter, depth) for a search whose result is R(filter, depth)
+QFamily(t, name, e, fk, R(_, _)) ==
+  LET PerF(flt) == LET PerD(d) == <<QRec(name, e, flt, d, R(flt, d))>> IN FlatMapSeq(PerD, QDepths, 1)
+  IN FlatMapSeq(PerF, FiltersOf(t, fk), 1)
+
+\* every query of the vocabulary in state t, with its result
+AllQueries(t) ==
+  LET secs == SortedSeq({e \in Live(t) : t[e].kind = "section"})
+      srcs == SortedSeq({e \in Live(t) : t[e].kind = "source"})
+      blks == AllBlocks(t)
+      SecQ(e) == LET R(flt, d) == Filtered(t, flt, SectionSearch(t, e, d)) IN QFamily(t, "findSections", e, "section", R)
+      SrcQ(e) == LET R(flt, d) == Filtered(t, flt, SourceSearch(t, e, d)) IN QFamily(t, "findSources", e, "source", R)
+      BlkQ(b) == LET R(flt, d) == Filtered(t, flt, BlockSourceSearch(t, b, d)) IN QFamily(t, "blockFindSources", b, "source", R)
+      FileQ == LET R(flt, d) == Filtered(t, flt, FileSectionSearch(t, d)) IN QFamily(t, "fileFindSections", 0, "section", R)
+      SecRef(e) == <<QRec("inheritedProperties", e, NoFlt, 0, InheritedProps(t, e)),
+                     QRec("referringBlocks", e, NoFlt, 0, ReferringBlocks(t, e)),
+                     QRec("referringDataArrays", e, NoFlt, 0, ReferringOfKind(t, e, "arrays")),
+                     QRec("referringTags", e, NoFlt, 0, ReferringOfKind(t, e, "tags")),
+                     QRec("referringMultiTags", e, NoFlt, 0, ReferringOfKind(t, e, "mtags")),
+                     QRec("referringSources", e, NoFlt, 0, ReferringSources(t, e))>>
+      SrcRef(e) == <<QRec("srcReferringDataArrays", e, NoFlt, 0, AttachedTo(t, e, "arrays")),
+                     QRec("srcReferringTags", e, NoFlt, 0, AttachedTo(t, e, "tags")),
+                     QRec("srcReferringMultiTags", e, NoFlt, 0, AttachedTo(t, e, "mtags")),
+                     QRec("parentSource", e, NoFlt, 0, IF ParentSource(t, e) = NONE THEN <<>> ELSE <<ParentSource(t, e)>>)>>
+  IN FlatMapSeq(SecQ, secs, 1) \o FileQ \o FlatMapSeq(SrcQ, srcs, 1) \o FlatMapSeq(BlkQ, blks, 1)
+     \o FlatMapSeq(SecRef, secs, 1) \o FlatMapSeq(SrcRef, srcs, 1)
+
+\* one self-loop per state that carries all queries and their results
+QueryAll ==
+  /\ open /\ Budget
+  /\ UNCHANGED <<tree, disk, diskOk, open, mode, dirty, nextEid, retained, limbo, zl, ended, gen, life>>
+  /\ last' = [Call("QueryAll", NoArgs, "ok", 0) EXCEPT !.out = AllQueries(tree)]
+  /\ hist' = hist
+
+\* C20 on the design: a search lists exactly the descendants within the depth, each once
+SearchEqualsBruteForce ==
+  \A e \in Live(tree) :
+     /\ (tree[e].kind = "section" => \A i \in 1..Len(QDepths) :
+            LET r == SectionSearch(tree, e, QDepths[i]) IN
+            Range(r) = Desc(tree, e, "sections", QDepths[i]) /\ Len(r) = Cardinality(Range(r)))
+     /\ (tree[e].kind = "source" => \A i \in 1..Len(QDepths) :
+            LET r == SourceSearch(tree, e, QDepths[i]) IN
+            Range(r) = {e} \cup Desc(tree, e, "sources", QDepths[i]) /\ Len(r) = Cardinality(Range(r)))
+\* breadth-first: depths along a single-root search never decrease
+BreadthFirst ==
+  \A e \in Live(tree) : tree[e].kind \in {"section", "source"} =>
+     LET r == IF tree[e].kind = "section" THEN SectionSearch(tree, e, -1) ELSE SourceSearch(tree, e, -1) IN
+     \A i, j \in 1..Len(r) : i < j => DepthOf(tree, r[i]) <= DepthOf(tree, r[j])
+BackRefsEqualBruteForce ==
+  \A e \in Live(tree) : tree[e].kind = "section" =>
+     Range(ReferringOfKind(tree, e, "arrays")) = {a \in Live(tree) : tree[a].kind = "array" /\ One(tree, a, "metadata") = e}
+
+---------------------------------------------------------------------------
 Init ==
   /\ tree = EmptyTree /\ disk = EmptyTree /\ diskOk = TRUE /\ open = TRUE /\ mode = "rw" /\ dirty = TRUE
   /\ nextEid = 1 /\ retained = <<>> /\ limbo = {} /\ zl = {} /\ ended = "" /\ gen = 0 /\ life = 0
@@ -386,6 +493,7 @@ Next ==
   \/ "Crash" \in Acts /\ Crash
   \/ "Open" \in Acts /\ \E m \in {"rw", "ro"} : Open(m)
   \/ "OpenOw" \in Acts /\ Open("ow")
+  \/ "Query" \in Acts /\ QueryAll
 
 Spec == Init /\ [][Next]_vars
 
